@@ -77,7 +77,7 @@ def run(pid, cmd, argv, trusted, known_classifiers):
                     if inp.startswith("bytecode="):
                         # tie of the Gallina generator model (coq/Model/GenF0.v) to the real generator
                         listing_n += 1
-                        if model in ("NOTF0", "NOTF1"):
+                        if model in ("NOTF0", "NOTF1", "NOTF2"):
                             listing_skipped += 1
                         elif impl != model:
                             listing_bad.append({"source": src, "real_generator": impl, "model_generator": model, "prefix": inp})
